@@ -422,7 +422,14 @@ def apply_mod_mapping(match, molecule, graph_out, mol_to_out, out_to_mol):
             else:
                 out_idx = max(graph_out) + 1
             mod_to_out[mod_idx] = out_idx
-            graph_out.add_node(out_idx, **modification.nodes[mod_idx])
+            new_node = dict(modification.nodes[mod_idx])
+            if 'resid' not in new_node and out_idx and 'resid' in graph_out.nodes[out_idx - 1]:
+                # The new particle becomes the last node, and merge_molecule
+                # numbers the residues it adds from the resid of the last
+                # node. Without a resid here, the residues mapped after this
+                # modification would be numbered from 1 again.
+                new_node['resid'] = graph_out.nodes[out_idx - 1]['resid']
+            graph_out.add_node(out_idx, **new_node)
         else:
             # Node should already exist
             # We need to find the out_index of this node. Since the
